@@ -1,5 +1,15 @@
 import PubModel.C07.Theorems
 open PubModel.C07
+#print axioms number_literal_accepted
+#print axioms ident_key_iff_isIdent
+#print axioms keyword_keys_quoted
+#print axioms lexIdent_accepts
+#print axioms parse_render
+#print axioms unmarshal_render
+#print axioms marshal_unmarshal_partial
+#print axioms goInt_json
+#print axioms demoLeaf_roundTrip
+#print axioms fixedCfg_ok
 #print axioms pinned_lexNumber_rejects_exp_plus
 #print axioms pinned_unmarshal_1e6_fails
 #print axioms pinned_unmarshal_neg_float
@@ -8,6 +18,7 @@ open PubModel.C07
 #print axioms gen_exp_signs
 #print axioms gen_signed_float
 #print axioms gen_use_number
+#print axioms gen_int_conv
 #print axioms gen_keywords
 #print axioms gen_operator_arms
 #print axioms gen_cfg_ok
